@@ -104,8 +104,13 @@ PROPS['C15'] = {
     'claim': 'Lean 4 proofs for all filter lists and payload items that drop_payload holds exactly when a filter of the item\'s kind '
              'matches (and/or criteria table, prefix criterion = range inclusion via C13, no criteria = no match), that every assertion '
              'yields exactly its payload, that SlurmFile::new picks the version by ASPA presence, and that the serde tree of every '
-             'well-formed file parses back to an equal file. Partial: serde_json\'s text writer/parser and Base64 are not modelled - '
-             'the check compares JSON trees (implementation output re-read in field order) and feeds mutated trees to from_str.',
+             'well-formed file parses back to an equal file. JSON text (session 12): the compact text serde_json writes for a file is modelled on '
+             'octets (Model/JsonText.lean: member order, numbers, string escapes, prefix Display of C13, unpadded URL-safe Base64) and compared '
+             'byte for byte with SlurmFile::to_string; a reference reader of that language inverts it for every tree (json_text_tree_roundtrip, by '
+             'mutual induction over the nested tree) and for every well-formed file the text is read back - tree, typed leaves through '
+             'Prefix::from_str and the Base64 reader, field deserialisers - as the file (json_text_roundtrip, json_text_injective). Partial: '
+             'serde_json\'s *reader* (white space, other escapes and number forms) is not modelled - mutated trees are fed to from_str and compared '
+             'as trees.',
     'note': 'The serde attribute semantics (default, skip_serializing_if, deny_unknown_fields - absent on BgpsecFilter -, null handling, '
             'duplicate fields, integer ranges) are mirrored by hand in Rpki/Model/Slurm.lean and validated differentially on valid and '
             'mutated files. Whether drop_payload consults all three lists, and ProviderAsns::MAX_COUNT, are regenerated from the source.',
@@ -114,9 +119,11 @@ PROPS['C15'] = {
     'rule': 'drop: 10 payload items of all three kinds x (every single filter and every ordered pair of filters of each kind over all '
             'present/absent criteria combinations: 21 prefix, 9 bgpsec, 3 aspa shapes) + random mixed lists; json: random valid files '
             '(comments with quotes/control/non-ASCII) and 3 structure-aware mutations each (drop/duplicate/null/retype/unknown key/wrap); '
-            'payloads and version choice per file.',
-    'trusted_base': ['serde/serde_json derive semantics mirrored by hand (validated differentially)'],
-    'assumptions': ['Base64 and IP prefix text are canonicalised by the harness before comparison'],
+            'payloads and version choice per file; jtext: the text of every accepted file (valid and mutated trees, comments with every control '
+            'character, quotes, backslashes, non-ASCII, U+2028) byte for byte against the model writer, and read back by the reference reader; '
+            'every drop decision is also asked of the same filters in a version-1 file and in a file made by SlurmFile::new.',
+    'trusted_base': ['serde/serde_json derive semantics mirrored by hand (validated differentially)', 'serde_json reader: exercised, not modelled'],
+    'assumptions': ['for the tree comparison (json op) Base64 and IP prefix text are canonicalised by the harness; the jtext op compares octets'],
 }
 
 PROPS['C07'] = {
